@@ -60,6 +60,19 @@ func (x *Exec) step(f *frame, ins ssa.Instruction, g *Term) {
 		p := asPtr(x.operand(f, in.X))
 		st := in.X.Type().Underlying().(*types.Pointer).Elem().Underlying().(*types.Struct)
 		x.nilCheck(p, g, "field address", in.Pos())
+		if nt, ok := in.X.Type().Underlying().(*types.Pointer).Elem().(*types.Named); ok && nt.Obj().Name() == "iface" && nt.Obj().Pkg() != nil && nt.Obj().Pkg().Path() == xsyncPath {
+			// interface-header view (see loadIfaceView)
+			view := ifaceViewTyp
+			if in.Field == 1 {
+				view = ifaceViewWord
+			}
+			r := PtrV{}
+			for _, al := range p.Alts {
+				r.Alts = append(r.Alts, PAlt{al.G, (al.Addr & ifaceViewMask) | view})
+			}
+			x.setReg(f, in, r, g)
+			break
+		}
 		x.setReg(f, in, x.ptrOffset(p, x.fieldOffset(st, in.Field)), g)
 	case *ssa.Index:
 		x.setReg(f, in, x.indexValue(f, in, g), g)
@@ -611,6 +624,19 @@ func (x *Exec) typeAssert(f *frame, in *ssa.TypeAssert, g *Term) Value {
 // ---------- builtin maps as association lists ----------
 
 func (x *Exec) mapObjAt(f *frame, in ssa.Instruction, mt *types.Map) *MapObj {
+	if x.thr != nil {
+		// one object per allocation site instance across the rounds of a thread
+		k := f.key(x, in)
+		if x.thr.Maps == nil {
+			x.thr.Maps = map[string]*MapObj{}
+		}
+		if m, ok := x.thr.Maps[k]; ok {
+			return m
+		}
+		m := &MapObj{KT: mt.Key(), VT: mt.Elem()}
+		x.thr.Maps[k] = m
+		return m
+	}
 	return &MapObj{KT: mt.Key(), VT: mt.Elem()}
 }
 
@@ -715,9 +741,31 @@ func (x *Exec) nextOp(f *frame, in *ssa.Next, g *Term) Value {
 	return nil
 }
 
+// selectOp: a blocking select over receive cases. The chosen case is a free
+// input ("select" stream); a receive from a channel that is only ever closed
+// (never sent to) is enabled iff the channel is closed; a receive from a ticker
+// channel is always enabled (a tick eventually arrives).
 func (x *Exec) selectOp(f *frame, in *ssa.Select, g *Term) Value {
-	x.fail("select not supported at %s", x.pos(in.Pos()))
-	return nil
+	u := x.U
+	n := len(in.States)
+	idx := x.Input(f, in, "select", 64, g)
+	x.Assume(g, u.Cmp(OUlt, idx, u.Const(64, uint64(n))), "")
+	vals := []Value{idx, u.True}
+	for i, st := range in.States {
+		if st.Dir != types.RecvOnly {
+			x.fail("select with send cases not supported at %s", x.pos(in.Pos()))
+		}
+		ch, _ := x.operand(f, st.Chan).(OpaqueV)
+		if ch.What == "chan" && ch.ID != 0 {
+			closed := x.chanClosed[ch.ID]
+			if closed == nil {
+				closed = u.False
+			}
+			x.Assume(u.And(g, u.Eq(idx, u.Const(64, uint64(i)))), closed, "")
+		}
+		vals = append(vals, x.zero(st.Chan.Type().Underlying().(*types.Chan).Elem()))
+	}
+	return AggV{Elems: vals}
 }
 
 func (x *Exec) spawn(f *frame, in *ssa.Go, g *Term) {
